@@ -101,7 +101,10 @@ def run_case(c):
         rngw = np.random.default_rng(c.get("seed", 0))
         xw = rngw.integers(-50, 50, 3 * taps * nb).astype(float)
         for wf, pw in objs:
-            ref = scipy.signal.firwin(taps * nb, cutoff=1.0 / nb, window=wf, scale=True) * (taps * nb)
+            with np.errstate(all="ignore"):
+                ref = scipy.signal.firwin(taps * nb, cutoff=1.0 / nb, window=wf, scale=True) * (taps * nb)
+            if not np.all(np.isfinite(ref)):
+                continue        # degenerate design (e.g. a 2-point hann window is all zero): the window is undefined, nothing to compare
             if pw.window.shape != ref.shape or not np.allclose(pw.window, ref, rtol=0, atol=1e-12 * (1 + float(np.max(np.abs(ref))))):
                 res["fails"].append(["window-fn", "a %dx%d filterbank built with window_fn=%r (after %s) does not carry that window's coefficients (max diff %g)"
                                      % (taps, nb, wf, [w for w, _ in objs], float(np.max(np.abs(pw.window - ref))) if pw.window.shape == ref.shape else -1)])
